@@ -104,9 +104,14 @@ def main(argv=None):
             return 0
 
         setup = getattr(mod, 'setup', None)
-        if setup:
-            setup(args.tier, seed, base)
-        specs = list(mod.shards(args.tier, seed))
+        try:
+            if setup:
+                setup(args.tier, seed, base)
+            specs = list(mod.shards(args.tier, seed))
+        except Exception:
+            # the harness could not even build its fixtures: that decides nothing about the property
+            print(f'HARNESS-ERROR {pid}: setup failed:\n{traceback.format_exc()}')
+            return 2
         if args.only:
             specs = [s for s in specs if args.only in repr(s)]
         total = ev.Stats()
